@@ -440,7 +440,9 @@ fn install_hook(world: &Rc<RefCell<World>>, yields: &Rc<RefCell<usize>>, chunks:
                 // T3 (C02): more than `limit` connections in progress at one worker (fault-free runs)
                 if !w.any_die && live > w.limit as i64 {
                     let msg = format!("worker {idx} has {live} connections in progress, limit {}", w.limit);
-                    w.t3.push(("C02".into(), msg));
+                    w.t3.push(("C02".into(), msg.clone()));
+                    // T3 (C04): a saturated worker receives nothing until it has released a connection
+                    w.t3.push(("C04".into(), format!("a saturated worker was given another connection: {msg}")));
                 }
             }
             if let Some(chunk) = chunks.get(k) {
@@ -527,8 +529,19 @@ fn run(a: &Args) {
                 },
                 ["k-offset", i] => match i.parse::<usize>() {
                     Ok(i) => match catch(|| hooks::kernel_offset(i)) {
-                        Ok((o, j)) => format!("{o} {j}"),
-                        Err(_) => "panic".into(),
+                        Ok((o, j)) => {
+                            // T3 (C04): every index below 512 has its own (word, bit)
+                            if o >= 4 || j >= 128 || 128 * o + j != i {
+                                rep.t3("C04", &format!("Availability::offset({i}) = ({o}, {j}): not the word/bit of index {i}, two worker indices share a bit"));
+                            }
+                            format!("{o} {j}")
+                        }
+                        Err(_) => {
+                            if i < 512 {
+                                rep.t3("C04", &format!("Availability::offset({i}) panics although {i} < 512"));
+                            }
+                            "panic".into()
+                        }
                     },
                     Err(_) => "bad-op".into(),
                 },
@@ -548,8 +561,18 @@ fn run(a: &Args) {
                                 ["set", i, v] => match i.parse::<usize>() {
                                     Ok(i) => {
                                         let v = *v == "1";
+                                        let before: Vec<bool> = (0..512).map(|j| catch(|| k.get(j)).unwrap_or(false)).collect();
                                         match catch(std::panic::AssertUnwindSafe(|| k.set(i, v))) {
                                             Ok(()) => {
+                                                // T3 (C04): the write changes worker i's bit and no other worker's
+                                                for j in 0..512usize {
+                                                    let got = catch(|| k.get(j)).unwrap_or(false);
+                                                    let want = if j == i { v } else { before[j] };
+                                                    if got != want {
+                                                        rep.t3("C04", &format!("set_available({i}, {v}) changed the availability of worker {j}: availability bits are not independent"));
+                                                        break;
+                                                    }
+                                                }
                                                 let w = k.words();
                                                 format!("{:x} {:x} {:x} {:x} any={}", w[0], w[1], w[2], w[3], k.any() as u8)
                                             }
